@@ -32,7 +32,7 @@ Proof.
 Qed.
 
 Lemma resolve_call_some : forall info ident cid ca r,
-  resolve_call info ident cid ca = Some r ->
+  resolve_call info ident cid ca = inl r ->
   exists ca0, ca = Some ca0 /\ ca_ident ca0 = ident /\ ca_callid ca0 = cid /\ r = resolved_of ca0 /\
               (forall t, ca_cstate ca0 = Some t -> In t (declared (classes info))).
 Proof.
@@ -62,7 +62,7 @@ Lemma accept_accepted : forall mp svc ch mname ident cu ca ins c vals r,
     find_method svc mname = Some m /\ cu_ident cu = ident /\
     resolve_cls (m_info m) (cu_state cu) = Some cl /\ c = c_id cl /\ deser mp cl (cu_state cu) = Some vals /\
     ((ins = false /\ cache_get ch (cu_callid cu) ident = Some r) \/
-     (ins = true /\ cache_get ch (cu_callid cu) ident = None /\ resolve_call (m_info m) ident (cu_callid cu) ca = Some r)).
+     (ins = true /\ cache_get ch (cu_callid cu) ident = None /\ resolve_call (m_info m) ident (cu_callid cu) ca = inl r)).
 Proof.
   intros mp svc ch mname ident cu ca ins c vals r H. unfold accept in H.
   destruct (find_method svc mname) as [m|] eqn:Em; [|discriminate].
@@ -72,7 +72,7 @@ Proof.
   - destruct (resolve_cls (m_info m) (cu_state cu)) as [cl|] eqn:Er; [|discriminate].
     destruct (deser mp cl (cu_state cu)) as [v|] eqn:Ed; [|discriminate].
     inversion H; subst. exists m, cl. repeat split; try reflexivity; try assumption. left; split; try reflexivity; try assumption.
-  - destruct (resolve_call (m_info m) ident (cu_callid cu) ca) as [r0|] eqn:Ec; [|discriminate].
+  - destruct (resolve_call (m_info m) ident (cu_callid cu) ca) as [r0|why] eqn:Ec; [|discriminate].
     destruct (resolve_cls (m_info m) (cu_state cu)) as [cl|] eqn:Er; [|discriminate].
     destruct (deser mp cl (cu_state cu)) as [v|] eqn:Ed; [|discriminate].
     inversion H; subst. exists m, cl. repeat split; try reflexivity; try assumption. right; repeat split; try reflexivity; try assumption.
@@ -151,7 +151,7 @@ Section Histories.
     destruct (find_method svc mname) as [m|]; [|apply Hc; exact Hin].
     destruct (negb (cu_ident cu =? ident)); [apply Hc; exact Hin|].
     destruct (cache_get (w_cache W) (cu_callid cu) ident); [apply Hc; exact Hin|].
-    destruct (resolve_call (m_info m) ident (cu_callid cu) ca) as [r0|] eqn:Ec; [|apply Hc; exact Hin].
+    destruct (resolve_call (m_info m) ident (cu_callid cu) ca) as [r0|why] eqn:Ec; [|apply Hc; exact Hin].
     destruct Hin as [Heq|Hin]; [|apply Hc; exact Hin].
     inversion Heq; subst.
     apply resolve_call_some in Ec. destruct Ec as [ca0 [E0 [E1 [E2 [E3 _]]]]]. subst ca.
